@@ -24,4 +24,8 @@ TrsmAlgOK ==
     /\ TrsmOK("trsm_upper_left", T, BL, UpperLeft(T, BL))
     /\ TrsmOK("trsm_upper_right", T, BR, UpperRight(T, BR))
     /\ TrsmOK("trsm_lower_right", T, BR, LowerRight(T, BR))
+    \* the table-based middle regime: k = 1, 2 with 1, 2, 3 tables (blocks of 1 .. 6 rows, tails of every length)
+    /\ \A k \in 1 .. 2, nt \in 1 .. 3 :
+          /\ TrsmOK("trsm_lower_left", T, BL, LowerLeftRussian(T, BL, k, nt))
+          /\ TrsmOK("trsm_upper_left", T, BL, UpperLeftRussian(T, BL, k, nt))
 =============================================================================
